@@ -15,6 +15,7 @@ pub mod trio_gen;
 pub mod registry;
 pub mod weight;
 pub mod incentive;
+pub mod pair;
 
 pub fn make(name: &str, variant: &str) -> Option<Box<dyn Engine>> {
     match name {
@@ -33,6 +34,7 @@ pub fn make(name: &str, variant: &str) -> Option<Box<dyn Engine>> {
         "registry" => Some(Box::new(registry::Registry::default())),
         "weight" => Some(Box::new(weight::Weight::default())),
         "incentive" => Some(Box::new(incentive::Incentive::default())),
+        "pair" => Some(Box::new(pair::PairEngine::default())),
         _ => None,
     }
 }
